@@ -2484,6 +2484,59 @@ def translate_writer_names(src_dir: str) -> str:
         METHODS, CFG_ATTRS, STATE_ATTRS, ORACLES, CFG_TYPE, LOCAL_ELT, EXTRA_PARAMS, MONAD, EXPR_HOOKS, STMT_SKIP, RECEIVERS, STMT_HOOKS = saved
     return ''.join(out)
 
+# ---- Device.pgm (C09): the estimate reported after an export is rebuilt from nothing on every export
+_RP_ITEMS = "Call(func=Attribute(value=Attribute(value=Name(id='self'), attr='writers'), attr='items'), args=[], keywords=[])"
+
+
+def _s_rp(tr, s, rest, env, tail):
+    d = dump(s)
+    if (isinstance(s, ast.Assign) and len(s.targets) == 1 and dump(s.targets[0]) == "Attribute(value=Name(id='self'), attr='fabrication_time')"
+            and isinstance(s.value, ast.Constant) and isinstance(s.value.value, float)):
+        return f'rp_set (TConst {cq(s.value.value)}) ;;; {tr.T(rest, env, tail)}'
+    if isinstance(s, ast.For) and not s.orelse and dump(s.iter) == _RP_ITEMS and dump(s.target) == "Tuple(elts=[Name(id='key'), Name(id='writer')])":
+        for n in ast.walk(ast.Module(body=s.body, type_ignores=[])):
+            if isinstance(n, (ast.Break, ast.Continue, ast.Return)):
+                raise Unsupported('break / continue / return inside the loop over self.writers')
+        return f'for_writers (rp_writers c) (fun writer => {tr.T(list(s.body), env, "ret tt")}) ;;; {tr.T(rest, env, tail)}'
+    if d == "Assign(targets=[Name(id='writer')], value=Call(func=Name(id='cast'), args=[Subscript(value=Name(id='Union'), slice=Tuple(elts=[Name(id='WaveguideWriter'), Name(id='NasuWriter'), Name(id='TrenchWriter'), Name(id='UTrenchWriter'), Name(id='MarkerWriter')])), Name(id='writer')], keywords=[]))":
+        return tr.T(rest, env, tail)          # typing.cast returns its argument
+    if d == "Expr(value=Call(func=Attribute(value=Name(id='writer'), attr='pgm'), args=[], keywords=[keyword(arg='verbose', value=Name(id='verbose'))]))":
+        return f'rp_call_pgm writer ;;; {tr.T(rest, env, tail)}'
+    if d == "AugAssign(target=Attribute(value=Name(id='self'), attr='fabrication_time'), op=Add(), value=Attribute(value=Name(id='writer'), attr='_fabtime'))":
+        return f'rp_add_fabtime writer ;;; {tr.T(rest, env, tail)}'
+    if isinstance(s, ast.If) and not s.orelse and all(isinstance(x, ast.Expr) and isinstance(x.value, ast.Call) and isinstance(x.value.func, ast.Name)
+                                                       and x.value.func.id == 'print' for x in s.body):
+        for n in ast.walk(s.test):
+            if isinstance(n, (ast.Call, ast.NamedExpr)):
+                raise Unsupported('a call in the condition of a print-only block')
+        return tr.T(rest, env, tail)
+    return None
+
+
+def translate_repeat(src_dir: str) -> str:
+    global METHODS, CFG_ATTRS, STATE_ATTRS, ORACLES, CFG_TYPE, LOCAL_ELT, EXTRA_PARAMS, MONAD, EXPR_HOOKS, STMT_SKIP, RECEIVERS, STMT_HOOKS
+    saved = (METHODS, CFG_ATTRS, STATE_ATTRS, ORACLES, CFG_TYPE, LOCAL_ELT, EXTRA_PARAMS, MONAD, EXPR_HOOKS, STMT_SKIP, RECEIVERS, STMT_HOOKS)
+    out = [PURE_PREAMBLE % ('device.py', '', 'RpState')]
+    try:
+        mod = ast.parse(pathlib.Path(src_dir, 'device.py').read_text())
+        cls = [n for n in mod.body if isinstance(n, ast.ClassDef) and n.name == 'Device']
+        if len(cls) != 1:
+            raise Unsupported('class Device not found in device.py')
+        # every other store to the estimate in the class must be the initialisation in __init__
+        for fn in cls[0].body:
+            if isinstance(fn, ast.FunctionDef) and fn.name not in ('pgm', '__init__'):
+                for n in ast.walk(fn):
+                    if isinstance(n, ast.Attribute) and n.attr == 'fabrication_time' and isinstance(n.ctx, (ast.Store, ast.Del)):
+                        raise Unsupported(f'Device.{fn.name} stores to self.fabrication_time')
+        METHODS = {'pgm': ('method', [('verbose', 'bool')], 'unit')}
+        CFG_ATTRS, STATE_ATTRS, ORACLES = set(), {}, {}
+        CFG_TYPE, LOCAL_ELT, EXTRA_PARAMS, MONAD = 'rp_cfg', {}, '', 'MR'
+        EXPR_HOOKS, STMT_SKIP, RECEIVERS, STMT_HOOKS = [], [], {'self'}, [_s_rp]
+        out.append(Tr(cls[0]).method('pgm').replace('Definition src_pgm ', 'Definition src_device_pgm ', 1) + '\n')
+    finally:
+        METHODS, CFG_ATTRS, STATE_ATTRS, ORACLES, CFG_TYPE, LOCAL_ELT, EXTRA_PARAMS, MONAD, EXPR_HOOKS, STMT_SKIP, RECEIVERS, STMT_HOOKS = saved
+    return ''.join(out)
+
 
 def main(argv):
     """py2coq.py <dir of femto sources> <output dir> <group>...   groups: pgm (PgmSrc.v), SrcLp.v, SrcNw.v, SrcTc.v, SrcTr.v"""
@@ -2513,6 +2566,8 @@ def main(argv):
                 name, text = g, translate_transform(str(src_dir))
             elif g == 'SrcWn.v':
                 name, text = g, translate_writer_names(str(src_dir))
+            elif g == 'SrcRp.v':
+                name, text = g, translate_repeat(str(src_dir))
             elif g == 'SrcSs.v':
                 name, text = g, translate_sheet(str(src_dir))
             elif g == 'SrcTn.v':
